@@ -654,6 +654,9 @@ class KMeansL1L2(KMeans):
         self.inertia_ = best_inertia
         self.n_iter_ = best_n_iter
         self.n_features_in_ = X.shape[1]
+        if hasattr(self, "feature_names_in_"):
+            # column names recorded by a previous fit with norm='L2'
+            del self.feature_names_in_
         return self
 
     def fit_transform(self, X, y=None, sample_weight=None):
